@@ -167,11 +167,11 @@ class ContractTable:
         if isinstance(vn, SSet):
             p.assume(o.ghost["vars"] == vn.term)
         # link the opaque denotation to the table
-        o.ghost["opaque_den"] = True
+        # denotations requested before the refinement are opaque symbols: define them by
+        # the table now; denotations requested from now on are read through the table
         for key, d in list(o.ghost.items()):
             if isinstance(key, tuple) and key[0] == "den":
                 self._link_den(I, o, d, key[1])
-        o.ghost.setdefault("on_den", []).append(lambda I2, pt, d: self._link_den(I2, o, d, spec.point_name(I2, pt), pt))
         for h in o.ghost.pop("on_refine", []):
             h(I)
 
